@@ -450,6 +450,14 @@ class LDMService:
         """
         with self._lock:
             self.data_consumer_its_aid.discard(its_aid)
+            # The subscriptions of a data consumer end with its registration; a later
+            # registration of the same application does not revive them.
+            for subscription in [
+                subscription
+                for subscription in self.subscriptions
+                if subscription.subscription_request.application_id == its_aid
+            ]:
+                self.remove_subscription(subscription)
 
     def delete_subscription(self, subscription_id: int) -> bool:
         """
